@@ -15,7 +15,7 @@ use crate::engine::{guarded, hex, show, unhex, Report, Sys, Tier, Violation};
 use crate::refmodel::head;
 use crate::refmodel::reqvalid::{self, ReqFacts};
 
-pub const RULE: &str = "flows = every state of the redirect-chain graph (original GET / POST with authorization, cookie, content-length, x-keep; statuses {302,307}; Locations {same host /q, other host http://b.test/q, same host https}; both policies; depth 0..3; also a chain whose original request names its Host explicitly) x caller additions: all sequences of length 0..=3 (thorough 0..=4) over the pool {cookie: k=NEW1, cookie: k=NEW2, authorization: NEW, content-length: 0 (with send-body-despite-method), host: h.test, host: h.test:80, host: h.test:443 (default ports spelled out), x-api-key with a value flagged sensitive, connection: close, x-a: 1, X-MiXeD: v, cookie and authorization EQUAL to the inherited ones, a non-UTF-8 cookie value} plus long sequences of n = 4..=60 additions cycling through the pool; restricted to requests the validity model accepts; head written under twelve buffer schedules (send_body_despite_method() called before, between and after the additions), parsed back and compared in full with the reference head (added in order, derived headers, unsuppressed originals); plus a relative-URI request without any original header x all addition sequences of length 1..=2 over the non-framing, non-Host pool entries. distinct = distinct (flow state, addition sequence) pairs";
+pub const RULE: &str = "flows = every state of the redirect-chain graph (original GET / POST with authorization, cookie, content-length, x-keep; statuses {302,307}; Locations {same host /q, other host http://b.test/q, same host https}; both policies; depth 0..3; also a chain whose original request names its Host explicitly) x caller additions: all sequences of length 0..=3 (thorough 0..=4) over the pool {cookie: k=NEW1, cookie: k=NEW2, authorization: NEW, content-length: 0 (with send-body-despite-method), host: h.test, host: h.test:80, host: h.test:443 (default ports spelled out), x-api-key with a value flagged sensitive, connection: close, x-a: 1, X-MiXeD: v, cookie and authorization EQUAL to the inherited ones, a non-UTF-8 cookie value} plus long sequences of n = 4..=60 additions cycling through the pool; restricted to requests the validity model accepts; head written under twelve buffer schedules, once more with failing header() calls (invalid name / value) interspersed (send_body_despite_method() called before, between and after the additions), parsed back and compared in full with the reference head (added in order, derived headers, unsuppressed originals); plus a relative-URI request without any original header x all addition sequences of length 1..=2 over the non-framing, non-Host pool entries. distinct = distinct (flow state, addition sequence) pairs";
 
 const POOL: [(&str, &[u8]); 15] = [("transfer-encoding", b"chunked"), ("cookie", b"k=NEW1"), ("cookie", b"k=NEW2"), ("authorization", b"NEW"), ("content-length", b"0"), ("host", b"h.test"), ("connection", b"close"), ("x-a", b"1"), ("X-MiXeD", b"v"), ("cookie", b"k=ORIG"), ("authorization", b"S3CRET"), ("cookie", b"caf\xe9"), ("x-api-key", b"K3Y"), ("host", b"h.test:80"), ("host", b"h.test:443")];
 
@@ -145,12 +145,27 @@ fn check(st: &ChainSt, added: &[(String, Vec<u8>)]) -> (Option<(String, String)>
             }
             flows.push(f);
         }
+        // header() calls that FAIL (name or value the http crate refuses) in between must not undo anything
+        {
+            let mut g = base.clone();
+            if despite {
+                g.send_body_despite_method();
+            }
+            let _ = g.header("bad name", "v");
+            for (k, v) in added.iter() {
+                let _ = g.header(HeaderName::from_bytes(k.as_bytes()).unwrap(), header_value(k, v));
+                let _ = g.header("bad name", "v");
+                let _ = g.header("x-bad-value", "a\r\nb");
+            }
+            flows.push(g);
+        }
         let f = flows.remove(0);
         let a = write_head(&f, false);
         for (j, g) in flows.iter().enumerate() {
             let o = write_head(g, false);
             if o.err != a.err || o.bytes != a.bytes {
-                return Some(("C16:added-header-missing:despite-order".into(), format!("redirect depth {}: added {:?}: the head differs when send_body_despite_method() is called after {} of the header() calls instead of before them: {:?} vs {:?}", st.hop, added.iter().map(|(k, v)| format!("{}: {}", k, show(v))).collect::<Vec<_>>(), if j == 0 { "half" } else { "all" }, show(&o.bytes), show(&a.bytes))));
+                let last = j + 1 == flows.len();
+                return Some((if last { "C16:added-header-missing:after-failed-header-call".into() } else { "C16:added-header-missing:despite-order".into() }, format!("redirect depth {}: added {:?}: the head differs when {}: {:?} vs {:?}", st.hop, added.iter().map(|(k, v)| format!("{}: {}", k, show(v))).collect::<Vec<_>>(), if last { "header() calls that return an error (invalid name / value) are made in between".to_string() } else { format!("send_body_despite_method() is called after {} of the header() calls instead of before them", if j == 0 { "half" } else { "all" }) }, show(&o.bytes), show(&a.bytes))));
             }
         }
         // further fixed buffer sizes (a size smaller than the longest line legitimately overflows)
